@@ -6,14 +6,15 @@ to the functions the driver RUNS.
 * `E = E(F_p)` (Mathlib's `WeierstrassCurve.Affine.Point` for `y² = x³ + 3`) is an `AddCommGroup` by
   Mathlib; under the hypothesis `hr : ∀ P : E, r • P = 0` (the curve group has exponent `r`, i.e.
   `#E(F_p) = r` — NOT proved, explicit) it is a module over the field `Zq r` (`moduleE`).
-* `φ = toPoint ∘ cT : G1.Pt → E` is a homomorphism on valid points for `0`, `+` (proved,
-  `Proofs/ComposeTblsG1.lean`) and for the driver's scalar multiplication `G1.mul` — the latter is the
-  hypothesis `MulBridge` below (the Jacobian double-and-add with mixed addition of `Model/TblsG1.lean`
-  computes `k • P`); see design/Compose.md for its status.
+* `φ = toPoint ∘ cT : G1.Pt → E` is a homomorphism on valid points for `0`, `+`
+  (`Proofs/ComposeTblsG1.lean`) and for the driver's scalar multiplication `G1.mul` (`MulBridge`, proved
+  as `mulBridge` from `Proofs/ComposeTblsG1Mul.lean`: the Jacobian double-and-add with mixed addition of
+  `Model/TblsG1.lean` computes `k • P`).
 * `recover_nat` (`Proofs/ComposeNatural.lean`) then identifies the driver's run with the abstract one.
 -/
 import DosModel.Model.TblsDrv
 import DosModel.Proofs.ComposeTblsG1
+import DosModel.Proofs.ComposeTblsG1Mul
 import DosModel.Proofs.ComposeNatural
 import DosModel.Props.C02
 import DosModel.Props.C03
@@ -88,11 +89,13 @@ theorem mod_nsmul (hr : ∀ P : E, G1.r • P = 0) (c : Nat) (X : E) : (c % G1.r
     show (0 % G1.r) • X = 0
     rw [mod_nsmul hr, zero_nsmul]
 
-/-- **the missing / separately proved bridge for scalar multiplication**: the driver's `G1.mul`
-(Jacobian double-and-add with mixed addition, `Model/TblsG1.lean`) stays on the curve and computes
-`k • P` in `E(F_p)` -/
+/-- the bridge for scalar multiplication: the driver's `G1.mul` (Jacobian double-and-add with mixed
+addition, `Model/TblsG1.lean`) stays on the curve and computes `k • P` in `E(F_p)` -/
 def MulBridge : Prop :=
   ∀ (k : Nat) (P : Pt), Valid P → Valid (G1.mul k P) ∧ φ (G1.mul k P) = k • φ P
+
+/-- … proved (`Proofs/ComposeTblsG1Mul.lean`) -/
+theorem mulBridge : MulBridge := fun k P hP => mul_spec k P hP
 
 /-- the abstract codec corresponding to `g1Codec` -/
 noncomputable def codecE : Codec E := ⟨fun b => (G1.decode b).map φ, fun X => G1.encode (ψ X)⟩
